@@ -39,7 +39,7 @@ var (
 
 func gen(t *rapid.T) Case {
 	c := Case{
-		Subject:  rapid.SampledFrom([]string{"router", "gnew", "gnewown", "gadd"}).Draw(t, "subject"),
+		Subject:  rapid.SampledFrom([]string{"router", "gnew", "gnewown", "gnewboth", "gadd"}).Draw(t, "subject"),
 		Recovery: rapid.SampledFrom([]string{"none", "func", "func", "status"}).Draw(t, "recovery"),
 		Status:   rapid.SampledFrom([]int{500, 503, 418}).Draw(t, "status"),
 		Trace:    rapid.Bool().Draw(t, "trace"),
@@ -62,9 +62,10 @@ func gen(t *rapid.T) Case {
 }
 
 type world struct {
-	env   *rig.Env
-	h     http.Handler
-	recov []any
+	env    *rig.Env
+	h      http.Handler
+	recov  []any
+	grecov []any // calls of the group's own recovery function (subject gnewboth)
 }
 
 type marker struct{ n int }
@@ -107,6 +108,17 @@ func build(c Case) *world {
 		g := w.env.NewGroup(opts...)
 		g.Use(w.env.NewMW("mg"))
 		r := g.New("r", mux.NewPathVersion("", "v1"), traceOpt()...)
+		populate(r)
+		w.h = g
+	case "gnewboth": // the group has a recovery function of its own; Group.New overrides it for the router
+		gopt := mux.WithRecovery(func(rw http.ResponseWriter, v any) {
+			w.grecov = append(w.grecov, v)
+			rw.WriteHeader(598)
+		})
+		g := w.env.NewGroup(gopt)
+		g.Use(w.env.NewMW("mg"))
+		// with recovery "none" the router gets no option of its own and inherits the group's function
+		r := g.New("r", mux.NewPathVersion("", "v1"), append(traceOpt(), opts...)...)
 		populate(r)
 		w.h = g
 	case "gnewown": // the group has no recovery option; the router made by Group.New gets its own
@@ -182,10 +194,27 @@ func check(c Case, st *rig.Stats) error {
 			classes = append(classes, "baseline-panics(C05's-subject)")
 			continue
 		}
-		nrec := len(sub.recov)
+		nrec, ngrec := len(sub.recov), len(sub.grecov)
 		o := sub.serve(c, q, val)
 		where := fmt.Sprintf("request %d %+v (subject %s, recovery %s, trace %v); normal outcome: %s", i, q, c.Subject, c.Recovery, c.Trace, summary(normal))
 		calls := len(sub.recov) - nrec
+		gcalls := len(sub.grecov) - ngrec
+		groupLevel := normal.RouterName == "" // served by the group itself (its not-found handler), not by a router
+		if c.Subject == "gnewboth" {
+			switch {
+			case !o.Fired && gcalls != 0:
+				return rig.Violf("spurious-panic-or-recovery", "%s: no fault was raised but the group's recovery function ran", where)
+			case o.Fired && (groupLevel || c.Recovery == "none"):
+				if o.Panicked || gcalls != 1 || calls != 0 || rig.ClassifyPanic(sub.grecov[len(sub.grecov)-1], val) != "injected" {
+					return rig.Violf("group-recovery", "%s: a panic where only the group's recovery function applies (its own not-found path, or a Group.New router that inherits it): escaped=%v, group function calls=%d, router function calls=%d", where, o.Panicked, gcalls, calls)
+				}
+				classes = append(classes, "fired:group-level-recovery")
+				firedBefore = true
+				continue
+			case o.Fired && gcalls != 0:
+				return rig.Violf("wrong-recovery-function", "%s: the router made by Group.New has its own recovery option, but the group's function ran %d times (router's: %d)", where, gcalls, calls)
+			}
+		}
 		switch {
 		case !o.Fired:
 			if o.Panicked || calls != 0 {
@@ -236,7 +265,7 @@ func check(c Case, st *rig.Stats) error {
 }
 
 var stats = rig.NewStats("C16",
-	"rapid draws a subject (Router; Group whose router is made by Group.New, with the recovery option given to NewGroup or only to Group.New; Group with an Added router carrying its own option), a recovery mode (none, WithRecovery(f), WithStatusRecovery), WithTrace on/off, Use before or after the registrations, and 1-8 requests (eight methods x live, parameterised, unknown, '*', '' and group-unmatched paths) of which about 60% carry a fault: panic in the base handler (route, HEAD, OPTIONS, 405, 404, TRACE, group not-found) or in middleware layer m0 / m1 (Use) / m5 (route) / mg (Group.Use), before or after next, with a string, error, int, pointer or http.ErrAbortHandler value; a quarter of the requests are served by a handler that itself issues a nested request to the same subject (so two request contexts are alive at once). A fault-free twin built identically gives the normal outcome. Oracle: with recovery nothing escapes ServeHTTP, f runs exactly once with the identical value (== / same pointer), WithStatusRecovery answers its status; without recovery the identical value reaches the caller; requests whose fault point is not on their path, and all later requests, are served exactly like the twin (handler, route, parameters as seen before and after the handler ran, status, middlewares, and the same for the nested request). Non-trivial: a fault fired outside a plain route handler (middleware layer or generated handler); distinct by hash of the case",
+	"rapid draws a subject (Router; Group whose router is made by Group.New, with the recovery option given to NewGroup, only to Group.New, or to both with different functions (the router's must win); Group with an Added router carrying its own option), a recovery mode (none, WithRecovery(f), WithStatusRecovery), WithTrace on/off, Use before or after the registrations, and 1-8 requests (eight methods x live, parameterised, unknown, '*', '' and group-unmatched paths) of which about 60% carry a fault: panic in the base handler (route, HEAD, OPTIONS, 405, 404, TRACE, group not-found) or in middleware layer m0 / m1 (Use) / m5 (route) / mg (Group.Use), before or after next, with a string, error, int, pointer or http.ErrAbortHandler value; a quarter of the requests are served by a handler that itself issues a nested request to the same subject (so two request contexts are alive at once). A fault-free twin built identically gives the normal outcome. Oracle: with recovery nothing escapes ServeHTTP, f runs exactly once with the identical value (== / same pointer), WithStatusRecovery answers its status; without recovery the identical value reaches the caller; requests whose fault point is not on their path, and all later requests, are served exactly like the twin (handler, route, parameters as seen before and after the handler ran, status, middlewares, and the same for the nested request). Non-trivial: a fault fired outside a plain route handler (middleware layer or generated handler); distinct by hash of the case",
 	"Added routers carry the same recovery option as their group (a group only promises recovery for routers it created and for its own not-found handler)")
 
 type rigMW = types.Middleware[*rig.H]
